@@ -677,8 +677,8 @@ def select__subsequence(self: XPathFunction, context: ta.ContextType = None) \
         context = self.context
 
     starting_loc = self.get_argument(context, 1, cls=NumericProxy)
-    if not math.isnan(starting_loc) and not math.isinf(starting_loc):
-        starting_loc = float(round_number(starting_loc))
+    if not isinstance(starting_loc, float) or math.isfinite(starting_loc):
+        starting_loc = int(round_number(starting_loc))
 
     if len(self) == 2:
         for pos, result in enumerate(self[0].select(context), start=1):
@@ -686,8 +686,8 @@ def select__subsequence(self: XPathFunction, context: ta.ContextType = None) \
                 yield result
     else:
         length = self.get_argument(context, 2, cls=NumericProxy)
-        if not math.isnan(length) and not math.isinf(length):
-            length = float(round_number(length))
+        if not isinstance(length, float) or math.isfinite(length):
+            length = int(round_number(length))
 
         for pos, result in enumerate(self[0].select(context), start=1):
             if starting_loc <= pos < starting_loc + length:
